@@ -14,6 +14,13 @@ Proof.
   destruct (is_repress_cfg (os_end_config o) && mem_coord c (c0 :: l0)); cbn [fst os_keys set_os_released set_os_release_next]; exact E.
 Qed.
 
+Lemma os_press_key_keeps_other o c : os_other (fst (os_handle_press o (OSKey c))) = os_other o.
+Proof.
+  unfold os_handle_press. destruct (os_keys o) as [|c0 l0]; [reflexivity|].
+  destruct (0 <? os_ignore_ticks o); [reflexivity|].
+  destruct (is_repress_cfg (os_end_config o) && mem_coord c (c0 :: l0)); reflexivity.
+Qed.
+
 (* activating a one-shot key while others are active: its inner action is performed, the key joins the active one-shot keys
    (room for 16), the timeout restarts at the configured value and the end condition is the one of the new key *)
 Theorem oneshot_keys_combine_and_restart cfg rec l inner timeout e c d os ls l2 cu :
@@ -21,7 +28,8 @@ Theorem oneshot_keys_combine_and_restart cfg rec l inner timeout e c d os ls l2 
   (length (os_keys (oneshot l2)) < ONE_SHOT_MAX_ACTIVE)%nat ->
   exists l', do_action_body cfg rec l (OneShot inner timeout e) c d os ls = Ok (l', cu) /\
              os_keys (oneshot l') = os_keys (oneshot l2) ++ [c] /\
-             os_timeout (oneshot l') = timeout /\ os_end_config (oneshot l') = e /\ states l' = states l2.
+             os_timeout (oneshot l') = timeout /\ os_end_config (oneshot l') = e /\ states l' = states l2 /\
+             os_other (oneshot l') = os_other (oneshot l2).
 Proof.
   intros Hin Hroom. unfold do_action_body. cbn [bind]. fold (before_action l c). rewrite Hin. cbn [bind].
   set (l3 := fst (os_press_l (OSKey c) (set_rpt (OneShot inner timeout e) l2))).
@@ -32,10 +40,14 @@ Proof.
   assert (S3 : states l3 = states l2).
   { unfold l3, os_press_l. destruct (os_handle_press _ _) as [o cs]. cbn [fst states set_oneshot]. unfold set_rpt.
     destruct (match OneShot inner timeout e with _ => _ end); reflexivity. }
+  assert (O3 : os_other (oneshot l3) = os_other (oneshot l2)).
+  { unfold l3, os_press_l. destruct (os_handle_press (oneshot (set_rpt (OneShot inner timeout e) l2)) (OSKey c)) as [o cs] eqn:Eo.
+    cbn [fst oneshot set_oneshot]. pose proof (os_press_key_keeps_other (oneshot (set_rpt (OneShot inner timeout e) l2)) c) as H.
+    rewrite Eo in H. cbn [fst] in H. rewrite H. unfold set_rpt. destruct (match OneShot inner timeout e with _ => _ end); reflexivity. }
   cbn [os_keys set_os_end_config set_os_timeout]. rewrite K3.
   unfold wdeque_push_back. destruct (Nat.ltb_spec (length (os_keys (oneshot l2))) ONE_SHOT_MAX_ACTIVE) as [_|Hc]; [|lia].
-  eexists. split; [reflexivity|]. cbn [oneshot set_oneshot os_keys set_os_keys os_timeout os_end_config set_os_end_config set_os_timeout states].
-  rewrite S3. auto.
+  eexists. split; [reflexivity|]. cbn [oneshot set_oneshot os_keys os_other set_os_keys os_timeout os_end_config set_os_end_config set_os_timeout states].
+  rewrite S3, O3. auto.
 Qed.
 
 (* not vacuous: through the real recursive knot (`exec` with its fuel), lsft as one-shot is already active with 7 ms left when a
